@@ -14,6 +14,7 @@
 
 #include <sys/wait.h>
 #include <bxdecay0/decay0_generator.h>
+#include <bxdecay0/mdl_event_op.h>
 #include "../engine/vf.hpp"
 #include "refdict.inc"
 #include "catalog.hpp"
@@ -21,7 +22,13 @@
 using namespace vf;
 typedef bxdecay0::decay0_generator G;
 
-struct CfgT { const char * kind; const char * name; int level, mode; double emin, emax; };
+struct CfgT { const char * kind; const char * name; int level, mode; double emin, emax; int mdl = 0; CfgT(const char * k, const char * n, int l, int m, double a, double b, int md = 0) : kind(k), name(n), level(l), mode(m), emin(a), emax(b), mdl(md) {} };
+// post-generation operation variants (momentum-direction lock) that are part of a configuration: {label code, rank, phi, theta, aperture, aperture2 (<0: none)} in degrees
+static const struct MdlT { bxdecay0::particle_code code; int rank; double phi, theta, ap, ap2; } MDLS[] = {
+  {bxdecay0::INVALID_PARTICLE, 0, 0, 0, 0, -1}, // [0] unused
+  {bxdecay0::GAMMA, 0, 30, 60, 10, -1}, {bxdecay0::GAMMA, 0, 200, 120, 40, -1}, {bxdecay0::ELECTRON, 0, 0, 0, 5, -1}, {bxdecay0::ELECTRON, -1, 90, 90, 25, -1},
+  {bxdecay0::INVALID_PARTICLE, 0, 45, 45, 20, 8}, {bxdecay0::ALPHA, 0, 300, 10, 60, -1}, {bxdecay0::INVALID_PARTICLE, 1, 10, 170, 0, -1}, {bxdecay0::POSITRON, 0, 120, 75, 15, 3}};
+static const int NMDL = 8;
 // configurations with angular correlations, deep cascades, chains, windows, 4b, b+ modes
 static const CfgT CFGS_FIXED[] = {
   {"bkg", "Co60", 0, 0, 0, 0}, {"bkg", "Bi207+Pb207m", 0, 0, 0, 0}, {"bkg", "Tl208", 0, 0, 0, 0}, {"bkg", "Bi214+Po214", 0, 0, 0, 0},
@@ -39,6 +46,10 @@ static std::vector<CfgT> & cfgs()
     for (auto & c : CFGS_FIXED) v.push_back(c);
     names = catalog::background_published();
     for (auto & n : names) { bool dup = false; for (auto & c : CFGS_FIXED) if (n == c.name) dup = true; if (!dup) v.push_back({"bkg", n.c_str(), 0, 0, 0, 0}); }
+    // the same decays with a momentum-direction-lock operation registered, in several variants (different species, cones, apertures):
+    // state kept by an operation across instances is history, too
+    static const int base[] = {0, 1, 2, 3, 5, 8, 11, 13, 15}; int k = 0;
+    for (int b : base) for (int j = 0; j < 4; j++) { CfgT c = CFGS_FIXED[b]; c.mdl = 1 + (k++ % NMDL); v.push_back(c); }
   }
   return v;
 }
@@ -51,6 +62,11 @@ static void configure(G & g, const CfgT & c)
     g.set_decay_category(G::DECAY_CATEGORY_DBD); g.set_decay_isotope(c.name); g.set_decay_dbd_level(c.level); g.set_decay_dbd_mode((bxdecay0::dbd_mode_type)c.mode);
     if (c.emax > 0) g.set_decay_dbd_esum_range(c.emin, c.emax);
   }
+  if (c.mdl) {
+    const MdlT & m = MDLS[c.mdl]; auto op = std::make_shared<bxdecay0::momentum_direction_lock_event_op>(); const double d = M_PI / 180;
+    if (m.ap2 >= 0) op->set_with_aperture_rectangular_cut(m.code, m.rank, m.phi * d, m.theta * d, m.ap * d, m.ap2 * d, false); else op->set(m.code, m.rank, m.phi * d, m.theta * d, m.ap * d, false);
+    g.add_operation(op);
+  }
 }
 
 enum OpKind { CREATE, SHOOT, RESET_REINIT, DESTROY, NOPS };
@@ -60,7 +76,7 @@ static std::string op_str(const Op & o)
 {
   char b[160];
   switch (o.kind) {
-  case CREATE: snprintf(b, sizeof b, "create(slot %d, %s:%s L%d M%d, initseed %u)", o.slot, CFGS[o.cfg].kind, CFGS[o.cfg].name, CFGS[o.cfg].level, CFGS[o.cfg].mode, o.tseed); break;
+  case CREATE: snprintf(b, sizeof b, "create(slot %d, %s:%s L%d M%d%s, initseed %u)", o.slot, CFGS[o.cfg].kind, CFGS[o.cfg].name, CFGS[o.cfg].level, CFGS[o.cfg].mode, CFGS[o.cfg].mdl ? (" +mdl#" + std::to_string(CFGS[o.cfg].mdl)).c_str() : "", o.tseed); break;
   case SHOOT: snprintf(b, sizeof b, "shoot(slot %d, tape %u, event %s%s)", o.slot, o.tseed, EVK[o.evkind], o.evkind == 2 ? (" x" + std::to_string(o.junk)).c_str() : ""); break;
   case RESET_REINIT: snprintf(b, sizeof b, "reset+reinit(slot %d)", o.slot); break;
   default: snprintf(b, sizeof b, "destroy(slot %d)", o.slot);
@@ -200,9 +216,9 @@ static RunInfo run_history(const std::vector<Op> & ops)
       const OracleEvent & want = oracle(s.cfg, s.iseed, o.tseed);
       std::string why;
       bool nt = s.shots >= 1 && other_ops[o.slot] >= 1 && o.evkind != 0;
-      if (nt) { ri.nontrivial = true; ri.target = std::string(CFGS[s.cfg].name) + ":" + std::to_string(CFGS[s.cfg].level) + ":" + std::to_string(CFGS[s.cfg].mode); ri.shape = std::string(EVK[o.evkind]) + "/" + std::to_string(std::min(s.shots, 3)) + "/" + std::to_string(std::min(other_ops[o.slot], 3)); }
+      if (nt) { ri.nontrivial = true; ri.target = std::string(CFGS[s.cfg].name) + ":" + std::to_string(CFGS[s.cfg].level) + ":" + std::to_string(CFGS[s.cfg].mode) + (CFGS[s.cfg].mdl ? "+mdl" : ""); ri.shape = std::string(EVK[o.evkind]) + "/" + std::to_string(std::min(s.shots, 3)) + "/" + std::to_string(std::min(other_ops[o.slot], 3)); }
       if (!same_as_oracle(*ev, r.pos, want, why)) {
-        ri.ok = false; ri.step = (int)k; ri.cls = std::string("history-dependent:") + CFGS[s.cfg].name;
+        ri.ok = false; ri.step = (int)k; ri.cls = std::string("history-dependent:") + CFGS[s.cfg].name + (CFGS[s.cfg].mdl ? "+mdl" : "");
         ri.msg = "event of " + op_str(o) + " differs from what a fresh process produces for the same configuration and deviates: " + why;
         return ri;
       }
